@@ -213,6 +213,8 @@ struct Hist<CC: CongestionController> {
     handshake_sends_left: u32,
     confirmed: bool,
     app_limited_phase: bool,
+    /// low-loss profile: lets the window grow large
+    clean: bool,
     // RFC 9002 view of the CUBIC recovery period
     recovery_start_us: Option<u64>,
     last_recovery_start_us: Option<u64>,
@@ -235,6 +237,7 @@ impl<CC: CongestionController> Hist<CC> {
         let mut rng = rng;
         let gen = Gen(rng.fork());
         let handshake_sends_left = rng.below(6) as u32;
+        let clean = rng.chance(1, 3);
         let initial_rtt = if rng.chance(1, 2) {
             Duration::from_millis(333)
         } else {
@@ -261,6 +264,7 @@ impl<CC: CongestionController> Hist<CC> {
             handshake_sends_left,
             confirmed: false,
             app_limited_phase: false,
+            clean,
             recovery_start_us: None,
             last_recovery_start_us: None,
             clearly_app_limited: false,
@@ -351,9 +355,14 @@ impl<CC: CongestionController> Hist<CC> {
 
         // O2: wrap / overflow detector
         let allowed = match call {
-            Call::Ack { bytes, .. } => (cwnd_before + bytes + 1).max(self.hi_water),
+            // BBR may first restore a previously attained cwnd (leaving ProbeRTT) and then add
+            // the newly acknowledged bytes in the same call
+            Call::Ack { bytes, .. } => cwnd_before.max(self.hi_water) + bytes + 1,
             Call::Mtu { old, new } => {
-                let scaled = (cwnd_before * new as u64).div_ceil(old as u64) + 1;
+                // cwnd_before is a truncated f32 for CUBIC: allow one byte before scaling and
+                // f32 rounding (2^-23 relative) after it
+                let scaled = ((cwnd_before + 1) * new as u64).div_ceil(old as u64);
+                let scaled = scaled + scaled / 100_000 + 16;
                 // RFC 9002 7.2 initial window upper bound for the new datagram size
                 scaled.max(10 * new as u64).max(self.hi_water)
             }
@@ -517,7 +526,7 @@ impl<CC: CongestionController> Hist<CC> {
     }
 
     fn op_send_burst(&mut self) {
-        let count = self.rng.range(1, 10);
+        let count = if self.clean { self.rng.range(1, 48) } else { self.rng.range(1, 10) };
         for _ in 0..count {
             if self.fail.is_some() {
                 return;
@@ -772,11 +781,11 @@ impl<CC: CongestionController> Hist<CC> {
         let _ = (newest_info, newest_bytes);
 
         // loss detection runs before on_ack (recovery::Manager::process_new_acked_packets)
-        if self.rng.chance(1, 3) {
+        if self.rng.chance(1, if self.clean { 60 } else { 3 }) {
             self.op_detect_losses(false);
         }
         // ECN-CE reported by this ACK frame
-        if new_largest && self.rng.chance(1, 12) {
+        if new_largest && self.rng.chance(1, if self.clean { 200 } else { 12 }) {
             self.op_ecn(acked.len() as u64);
         }
         if self.fail.is_some() {
@@ -989,7 +998,13 @@ impl<CC: CongestionController> Hist<CC> {
         if self.rng.chance(1, 40) {
             self.app_limited_phase = !self.app_limited_phase;
         }
-        let r = self.rng.below(100);
+        let mut r = self.rng.below(100);
+        if self.clean && (70..=77).contains(&r) && !self.rng.chance(1, 16) {
+            r = 50; // an ACK frame instead of a loss-timer expiry
+        }
+        if self.clean && (93..=97).contains(&r) && !self.rng.chance(1, 6) {
+            r = 0; // keep sending instead of MTU changes / discards
+        }
         if self.app_limited_phase {
             // application limited: short bursts, promptly acknowledged
             match r {
@@ -1136,25 +1151,41 @@ pub fn run(p: &Params, sum: &mut Summary) {
         }
         let verbose = p.verbose;
         let strict = p.strict_appendix_b;
-        let res = guarded(move || match kind {
-            Kind::Cubic => drive(
-                kind,
-                CubicCongestionController::new(mtu, Default::default()),
-                mtu,
-                rng,
-                len,
-                verbose,
-                strict,
-            ),
-            Kind::Bbr => drive(
-                kind,
-                BbrCongestionController::new(mtu, Default::default()),
-                mtu,
-                rng,
-                len,
-                verbose,
-                strict,
-            ),
+        let initial_window = if p.huge_initial_window {
+            // configuration probe (off by default, see README): application-provided initial
+            // congestion window close to u32::MAX through the public endpoint builders
+            let mut r = Rng::new(mix(p.seed, index ^ 0x1111));
+            Some(u32::MAX - r.range(0, 200_000) as u32)
+        } else {
+            None
+        };
+        let res = guarded(move || {
+            use s2n_quic_core::recovery::congestion_controller::{Endpoint as _, PathInfo};
+            let addr = s2n_quic_core::inet::SocketAddress::default();
+            let mut info = PathInfo::new(&s2n_quic_core::path::Config::default(), &addr);
+            info.max_datagram_size = mtu;
+            match kind {
+                Kind::Cubic => {
+                    let cc = match initial_window {
+                        Some(w) => s2n_quic_core::recovery::cubic::builder::Builder::default()
+                            .with_initial_congestion_window(w)
+                            .build()
+                            .new_congestion_controller(info),
+                        None => CubicCongestionController::new(mtu, Default::default()),
+                    };
+                    drive(kind, cc, mtu, rng, len, verbose, strict)
+                }
+                Kind::Bbr => {
+                    let cc = match initial_window {
+                        Some(w) => s2n_quic_core::recovery::bbr::builder::Builder::default()
+                            .with_initial_congestion_window(w)
+                            .build()
+                            .new_congestion_controller(info),
+                        None => BbrCongestionController::new(mtu, Default::default()),
+                    };
+                    drive(kind, cc, mtu, rng, len, verbose, strict)
+                }
+            }
         });
         sum.evaluations += 1;
         let replay = json!({"check": "cc", "seed": p.seed, "history": index, "mode": p.mode(),
